@@ -296,6 +296,7 @@ class MonoTimer(object):
         """ Restarts timer at stop so no time lost
 
         """
+        self.update()  # shift .stop for any retrograde before it is used
         return self.restart(start=self.stop)
 
     def extend(self, extension=None):
@@ -307,6 +308,7 @@ class MonoTimer(object):
             effectively doubling the time
 
         """
+        self.update()  # shift .start for any retrograde before it is used
         if extension is None: #otherwise extend by .duration or double
             extension = self.duration
 
